@@ -274,6 +274,13 @@ loop:
 
 	c = b[0]
 
+	// Whether a field is sensitive is a property of its representation, not of
+	// the object it is decoded into: callers reuse one HeaderField for a whole
+	// block, and the mark left by a never-indexed field would otherwise stick to
+	// every field after it, and go into the table with the next one that is
+	// indexed.
+	hf.sensible = false
+
 	switch {
 	// Indexed Header Field.
 	// The value must be indexed in the static or the dynamic table.
